@@ -1,5 +1,6 @@
 """C03 — integer->string output is the exact canonical numeral in every radix."""
 import gens
+import vlib
 
 ID = "C03"
 LEAN_MODULES = ["LexVerif.Props.C03", "LexVerif.Props.TablesWrite", "LexVerif.Props.Literals.WriteInteger", "LexVerif.Props.Literals.Util"]
@@ -55,3 +56,26 @@ def op_check(op, ir, fs, profile):
     if op.startswith("dwi") and len(t) > 3 and t[3] != "display":
         return "decimal output differs from core::fmt::Display"
     return None
+
+
+def post(ctx, bins):
+    return sweep_post(ctx, bins)
+
+
+def sweep_post(ctx, bins):
+    """thorough tier: every u32/i32 value (decimal, default API) against core::fmt::Display, natively"""
+    if ctx["tier"] != "thorough":
+        return []
+    viol = []
+    total = 0
+    for (fs, profile), binp in sorted(bins.items()):
+        if fs not in ("default", "compact"):
+            continue
+        ops = vlib.sweep_ops("xwi", "u32", 0, 1 << 32, 64) + vlib.sweep_ops("xwi", "i32", -(1 << 31), 1 << 31, 64)
+        ops += vlib.sweep_ops("xwi", "u64", (1 << 63) - 50000000, (1 << 63) + 50000000, 16)
+        res = vlib.run_sweeps(binp, ops)
+        v, n = vlib.sweep_violations(res, fs, profile, lambda op, first: "dwi %s %s -" % (op.split(" ")[1], first))
+        viol += v
+        total += n
+    ctx["post_evaluations"] = ctx.get("post_evaluations", 0) + total
+    return viol
